@@ -9,10 +9,16 @@ for d in sorted(glob.glob("/verif/seeded/*/")):
         rows.append(f"| {sid} | {m.get('property','')} | {m.get('summary','')[:140]} | {m.get('needs','')[:140]} | superseded (see meta.json) |")
         continue
     res = []
+    if m.get("does_not_apply_at"):
+        res.append(f"patch no longer applies at /repo {m['does_not_apply_at']} (the lines it edits were repaired since); earlier result kept")
     for c, r in sorted(m.get("checks", {}).items()):
         sig = (r["signatures"][0].split(" cases=")[0].replace("sig=", "") if r.get("signatures") else "")
         res.append(f"{c}: {'caught (' + sig + ')' if r['exit'] == 1 else ('silent' if r['exit'] == 0 else 'exit ' + str(r['exit']))}")
     rows.append(f"| {sid} | {m.get('property','')} | {m.get('summary','').replace('|','/')[:160]} | {m.get('needs','').replace('|','/')[:160]} | {'; '.join(res)} |")
+n = len(rows)
+caught_target = sum(1 for d in glob.glob("/verif/seeded/*/") for m in [json.load(open(d + "meta.json"))] if not m.get("superseded") and m.get("checks", {}).get(os.path.basename(d.rstrip("/")).split("-")[0], {}).get("exit") == 1)
+caught_any = sum(1 for d in glob.glob("/verif/seeded/*/") for m in [json.load(open(d + "meta.json"))] if not m.get("superseded") and any(r.get("exit") == 1 for r in m.get("checks", {}).values()))
+print(f"{n} stored changes; reported by the check of the targeted property: {caught_target}; reported by at least one check: {caught_any}.\n")
 print("| seeded change | property | what was changed | what it needs to manifest | checks run (quick tier, patch applied to /repo) |")
 print("|---|---|---|---|---|")
 print("\n".join(rows))
